@@ -81,7 +81,7 @@ class C11(Prop):
     REAL_VS_STUB = {'real': ['dataflows join', 'kvfile + sqlite'], 'stub': ['KVFile twin: cache-size knob and operation counter only']}
     PROBES = ['mode-inner', 'mode-half-outer', 'mode-full-outer', 'dedup-mode', 'null-key', 'duplicate-source-key', 'unmatched-target-row', 'unmatched-source-key', 'key-format-string',
               'key-row-number', 'wildcard-mapping', 'maps-onto-existing-target-column', 'falsy-first-value', 'spill-path (cache smaller than keys)', 'big-index (>10240 keys)', 'source-kept', 'kept-source-edited-later'] + ['agg:' + a for a in NUM_AGGS + ANY_AGGS]
-    TIERS = {'quick': dict(runs=1500, wall=100, run_wall=300),
+    TIERS = {'quick': dict(runs=3000, wall=100, run_wall=300),
              'thorough': dict(runs=40000, wall=1700, run_wall=600)}
     SHRINK_FROZEN = ('fields_',)
 
